@@ -193,7 +193,9 @@ def nocopy_scripts(tier):
         return ["a insert %s 0 zero:8" % h, "a insert %s u zero:8" % h, "a insert %s u+8 zero:8" % h, "a detach %s u" % h,
                 "a detach %s u+200" % h, "a cut %s 0 8" % h, "a cut %s 8 0" % h, "a cut %s 0 0" % h, "a reserve %s u+8 f8" % h,
                 "a reserve %s 400 f8" % h, "a reduce %s" % h, "a slice %s 0 16" % h, "a slice %s u 16" % h, "a slice %s u+8 8" % h,
-                "a set %s f8 0 zero:8" % h, "a set %s f8 6 zero:16" % h, "a bset %s u zero:8" % h, "a drop %s" % h, "a clone %s %s" % (h, o)]
+                "a set %s f8 0 zero:8" % h, "a set %s f8 6 zero:16" % h, "a bset %s u zero:8" % h, "a drop %s" % h, "a clone %s %s" % (h, o),
+                # raw bytes pushed behind the elements must be refused (they were never constructed as elements)
+                "a append %s fill:8:41" % h, "a append %s fill:16:41" % h]
     pool = ops("h0", "h1") + ops("h1", "h0")
     for n in ((1, 4, 8, 9, 12, 30) if tier == "quick" else (0, 1, 3, 4, 8, 9, 12, 17, 30, 40)):
         for flags in (2, 0) if n in (9, 12) else (2,):
